@@ -64,7 +64,6 @@ Cc.example.com,www.example.com,300,,
 // 512 bytes of a client without EDNS.
 var longName = strings.Repeat("l", 49) + "." + strings.Repeat("m", 63) + "." + strings.Repeat("n", 63) + "." + strings.Repeat("o", 63) + ".example.com"
 
-
 type qspec struct {
 	id     string
 	name   string
@@ -395,13 +394,13 @@ var scens = []scen{
 }
 
 type srun struct {
-	w       *srvfix.World
-	h       *dnsserver.FBDNSDB
-	clock   *int
-	gen     int
-	relEnd  []int // step at which each successful reload returned, and its generation
-	relGen  []int
-	bad     []string
+	w      *srvfix.World
+	h      *dnsserver.FBDNSDB
+	clock  *int
+	gen    int
+	relEnd []int // step at which each successful reload returned, and its generation
+	relGen []int
+	bad    []string
 }
 
 func (x *srun) query(tag string) {
@@ -576,7 +575,10 @@ func main() {
 	r.Set("traces_validated_against_impl", r.Int("schedule_executions")+r.Int("history_evaluations"))
 	r.Set("distinct_nontrivial", r.Int("history_nontrivial")+r.Int("schedule_distinct_outcomes"))
 	r.Set("rule", "part 1: every history of length <= the bound over the ops "+strings.Join(ops, " ")+" replayed on a fresh pair of real handlers (cache on / off) over the same CDB files; the i-th query of a history carries its own message id; at each step the two responses must agree in: number of messages, id, opcode, QR, AA, TC, RD, RA, Z, AD, CD, rcode and the question section (name bytes, type, class) EXACTLY, and in the answer / authority / additional sections as sets of records with lower-cased owner names (OPT: size, version, DO, extended rcode, options). The query ops from www-A-norec to NX-A-upper-norec are presentation variants of www-A-none / nx-A: same cache key, other RD/CD/AD flags, opcode NOTIFY, a second question, EDNS 512+DO with a mixed-case name, upper-case name with RD clear; long-A / LONG-A-upper ask, without EDNS, for a 255-byte name whose reply fits 512 bytes only if the owner name compresses against the question. Histories are spread over "+fmt.Sprint(histShards)+" shard processes by their first two ops; a failing history is not extended and is reported only if none of its proper subsequences fails (each is replayed). nontrivial = histories whose last query has the cache key of an earlier query or follows a reload. part 2: every interleaving within the preemption bound of the listed scenarios on the instrumented handler with the cache enabled (scheduling points at every lock, cache and backend call); a query started after a reload returned must carry the new generation")
-	r.Assume = []string{"weighted answers (two or more address candidates) are excluded by construction of the data; cache entry expiry (1000 s) is not reached", "cache keys beyond the alphabet's collisions are not covered"}
+	r.Set("history_shard_processes", histShards)
+	r.Assume = []string{"weighted answers (two or more address candidates) are excluded by construction of the data; cache entry expiry (1000 s) is not reached", "cache keys beyond the alphabet's collisions are not covered",
+		"responses are compared as the dns.Msg the handler hands to the writer (header fields, question, record sets), not as wire bytes: record order inside a section and name compression are not compared, their effect on the size limit is (TC bit, dropped records)",
+		"'up to letter case of owner names' is applied to the owner names of the records of the answer / authority / additional sections only; the question section must repeat the query's spelling"}
 	r.Finish()
 }
 
